@@ -426,6 +426,14 @@ func runC09(c *Ctx) {
 		}
 	}
 
+	c.Rule("C09-D7", "attachment completion: on the path of (*Parser).Add that holds a reconstructor, affine forms over N (attachment frames received) and A (header.Attachments) are propagated through the "+
+		"stores that build the reconstructor, the per-frame effect of addBuffer and the test that decides finish(...): the packet is complete exactly when N = A, whichever way the count is kept "+
+		"(count-down field, count-up field, length of the buffer slice)", 3)
+	attachmentCompletion(c, "C09-D7")
+
+	c09NoSharedWalkerState(c, "C09-D8")
+	reflectMapStoreRule(c, "C09-D9")
+
 	c.Rule("C09-D4", "placeholder agreement: the JSON keys the encoder writes (struct tags of `placeholder`) are the literals the decoder compares; placeholder numbers are 0-based on the wire and the decoder adds 1 because the encoder prepends the header frame; attachments are counted once each", 8)
 	{
 		st := p.Struct("jsonparser", "placeholder")
@@ -457,7 +465,7 @@ func runC09(c *Ctx) {
 			b, ok := in.(*ssa.BinOp)
 			return ok && b.Op == token.ADD && strings.HasSuffix(Term(b.X), ".Num") && Term(b.Y) == "1"
 		})
-		c.Ob("C09-D4", "jsonparser.reconstructBinaryValue/index-base", rb.Pos(), len(plus) == 1, "the decoder must index buffers with num + 1 (buffer 0 is the header frame)")
+		c.Ob("C09-D4", "jsonparser.reconstructBinaryValue/index-base", rb.Pos(), len(plus) >= 1, "the decoder must index buffers with num + 1 (buffer 0 is the header frame)")
 		// sibling agreement: EVERY attachment lookup of the decoder indexes r.buffers with (wire number + 1)
 		nIdx := 0
 		for _, fnn := range []string{"reconstructor.reconstructBinaryValue", "reconstructor.reconstructMap", "reconstructor.reconstructValue", "reconstructor.reconstructStruct"} {
@@ -488,9 +496,6 @@ func runC09(c *Ctx) {
 		c.Ob("C09-D4", "jsonparser.encodeBinary/header-frame-first", eb.Pos(), okPre, "the header frame must be prepended to the attachment frames")
 		af := findInstrs(eb, fieldStorePred(p.Field("parser", "PacketHeader", "Attachments")))
 		c.Ob("C09-D4", "jsonparser.encodeBinary/attachments-count", eb.Pos(), len(af) == 1 && Term(af[0].(*ssa.Store).Val) == "numBuffers", "header.Attachments must be the number of attachments collected")
-		ad := p.Fn("jsonparser", "Parser.Add")
-		rf := findInstrs(ad, fieldStorePred(p.Field("jsonparser", "reconstructor", "remaining")))
-		c.Ob("C09-D4", "jsonparser.Parser.Add/expects-announced-count", ad.Pos(), len(rf) == 1 && Term(rf[0].(*ssa.Store).Val) == "p.parseHeader(data)#0.Attachments", "the decoder must wait for exactly the announced number of attachments")
 	}
 }
 
